@@ -335,6 +335,36 @@ pub fn one_case(ctx: &Ctx, case: u64, l: &mut Local) {
     let alphabet: Vec<char> = MUT_ALPHABET.chars().collect();
     let fp_base = gen::hash_str(class);
     match class {
+        "random-bytes" if r.chance(30) => {
+            // a three-segment token whose header / payload segment decodes to bytes with a byte-order
+            // mark, other encodings' signatures or truncated multi-byte sequences, of odd and even length
+            let prefixes: [&[u8]; 12] = [&[0xEF, 0xBB, 0xBF], &[0xFF, 0xFE], &[0xFE, 0xFF], &[0xFF, 0xFE, 0, 0], &[0, 0, 0xFE, 0xFF], &[0x1F, 0x8B], &[0], &[b'{'], &[0xC3], &[0xE2, 0x82], &[0xF0, 0x9F, 0x98], &[]];
+            let body_text = *r.pick(&["{\"iss\":\"i\",\"exp\":4000000000}", "{}", "", "{\"a\":", "x", "{\u{0}}"]);
+            let mut bytes: Vec<u8> = r.pick(&prefixes).to_vec();
+            match r.below(3) {
+                0 => bytes.extend(body_text.as_bytes()),
+                1 => bytes.extend(body_text.encode_utf16().flat_map(|u| u.to_le_bytes())),
+                _ => bytes.extend(body_text.encode_utf16().flat_map(|u| u.to_be_bytes())),
+            }
+            if r.chance(50) {
+                bytes.push(*r.pick(&[0u8, b'}', 0xFF, 0x80, b' ']));
+            }
+            let seg = b64e(&bytes);
+            let good_h = b64e(b"{\"alg\":\"ES256\"}");
+            let good_p = b64e(b"{\"iss\":\"i\",\"exp\":4000000000}");
+            let jwt = match r.below(3) {
+                0 => format!("{good_h}.{seg}.AAAA"),
+                1 => format!("{seg}.{good_p}.AAAA"),
+                _ => format!("{seg}.{seg}.{seg}"),
+            };
+            p.l.distinct(crate::rng::mix(fp_base ^ gen::hash_str(&jwt)));
+            for fmt in FMTS {
+                let parts = Parts { jwt: jwt.clone(), disclosures: if r.chance(50) { vec![] } else { vec![seg.clone()] }, kb: if r.chance(30) { Some(jwt.clone()) } else { None } };
+                if let Some(t) = parts.encode(fmt, 0) {
+                    p.feed(&t, fmt, &mut r, None);
+                }
+            }
+        }
         "random-bytes" => {
             let len = match r.below(4) {
                 0 => r.usize(16),
@@ -611,7 +641,17 @@ pub fn one_case(ctx: &Ctx, case: u64, l: &mut Local) {
                 8 | 9 => json!({"jwk": jwk_with_params(&mut r)}),
                 0 => rand_json(&mut r, 2),
                 1 => json!({"jwk": rand_json(&mut r, 2)}),
-                2 => json!({"jwk": {"kty": "EC", "crv": "P-256", "x": "AA", "y": "AA"}}),
+                2 => {
+                    let n = *r.pick(&[0usize, 1, 2, 31, 32, 33, 64, 65]);
+                    let c = b64e(&vec![0u8; n]);
+                    json!({"jwk": {"kty": "EC", "crv": *r.pick(&["P-256", "P-384", "P-521", "secp256k1", ""]), "x": c, "y": if r.chance(50) { c.clone() } else { "AA".to_string() }}})
+                }
+                3 if r.chance(60) => {
+                    // Ed25519 / X25519 keys whose x is valid base64url of the wrong length (or all zero)
+                    let n = *r.pick(&[0usize, 1, 3, 16, 31, 32, 33, 64]);
+                    let x = match r.below(3) { 0 => b64e(&vec![0u8; n]), 1 => b64e(&vec![0xFFu8; n]), _ => "AAAA".to_string() };
+                    json!({"jwk": {"kty": "OKP", "crv": *r.pick(&["Ed25519", "X25519", "Ed448", "ed25519"]), "x": x}})
+                }
                 3 => json!({"jwk": {"kty": "OKP", "crv": "Ed25519", "x": rand_json(&mut r, 1)}}),
                 4 => json!({"jwk": {"kty": "RSA", "n": "AQAB", "e": "AQAB"}}),
                 5 => json!({"jwk": {"kty": "oct", "k": "c2VjcmV0"}}),
@@ -748,6 +788,17 @@ pub fn one_case(ctx: &Ctx, case: u64, l: &mut Local) {
                     m.insert("iss".into(), json!("i"));
                     m.insert("exp".into(), json!(4_000_000_000u64));
                     Value::Object(m)
+                }
+                3 if r.chance(70) => {
+                    // root iat / exp / nbf of every numeric kind and magnitude (and non-numbers)
+                    let nums = [json!(-1.5), json!(1e20), json!(1.0e308), json!(-1.0e308), json!(5e-324), json!(-0.0), json!(u64::MAX), json!(i64::MIN), json!(1.8446744073709552e19), json!(1683000000.5), json!(-1), json!("1683000000"), json!(null), json!([1]), json!(true)];
+                    let mut c = json!({"iss": "i", "exp": 4_000_000_000u64, "a": {"iat": -1.5, "exp": 1e20}});
+                    for k in ["iat", "exp", "nbf"] {
+                        if r.chance(60) {
+                            c[k] = r.pick(&nums).clone();
+                        }
+                    }
+                    c
                 }
                 3 => json!([1, 2, 3]),
                 4 => json!("string"),
